@@ -245,9 +245,10 @@ AtPositions(P, res) ==
 \* range_lookup TRUE = MATCH type 1, FALSE = MATCH type 0 (with wildcards)
 TypeOf(approx) == IF approx THEN 1 ELSE 0
 
-\* a lookup with a result index k outside 1..n: an error, never a cell.
-\* (#N/A is also acceptable when nothing is found anyway.)
-OutOfRange(P) == RangeErr \cup (IF NA \in P \/ FREE \in P THEN {Err("#N/A")} ELSE {})
+\* a lookup with a result index k outside 1..n yields #REF!/#VALUE!, whatever
+\* the lookup value is (also when nothing would be found: the statement says
+\* "out-of-range indices yield #REF!/#VALUE!", and so does Excel)
+OutOfRange(P) == RangeErr
 
 VLookup(v, T, c, approx) ==
   LET P == MatchAllowed(v, Col(T, 1), TypeOf(approx))
